@@ -4,6 +4,10 @@ import collections
 from vf import common
 
 
+def _ident(x):
+    return x
+
+
 def check_n(args):
     n, shard_all, kind = args
     import lazy_dataset
@@ -25,6 +29,15 @@ def check_n(args):
             ds = base.concatenate(base.map(lambda x: x + n))[::2] if n else base
         full = list(ds)
         keys = None
+    elif kind == 'dict-pipeline':
+        # keys survive map / concatenate / slice; the shards must carry them along
+        h = n // 2
+        ka, kb = [f'a{i:03d}' for i in range(h)], [f'b{i:03d}' for i in range(n - h)]
+        a = lazy_dataset.new({k: i for i, k in enumerate(ka)})
+        b = lazy_dataset.new({k: h + i for i, k in enumerate(kb)})
+        ds = a.map(_ident).concatenate(b)[::-1] if n else a
+        keys = (ka + kb)[::-1]
+        full = list(range(n))[::-1]
     else:
         keys = [f'k{i:03d}' for i in range(n)]
         ds = lazy_dataset.new({k: i for i, k in enumerate(keys)})
@@ -82,6 +95,43 @@ def check_n(args):
             fk = [x for p in parts for x in p.keys()]
             if fk != keys:
                 bad('keys-lost', f'keys of the shards {fk[:8]}...', k)
+        if n <= 16:
+            import numpy as np
+            # the shards are datasets in their own right: random access, numpy counts, shards of shards
+            for j, (p, li) in enumerate(zip(parts, lists)):
+                st['transitions'] += 1
+                try:
+                    got = [p[i] for i in range(len(li))] + [p[-i - 1] for i in range(len(li))]
+                except Exception as e:      # noqa: BLE001
+                    bad('shard-index-raises', f'split({k})[{j}][i] raised {type(e).__name__}: {e}', k, j)
+                    continue
+                if got != li + li[::-1]:
+                    bad('shard-index-differs', f'split({k})[{j}] by index gives {got[:8]}, iterated {li[:8]}', k, j)
+                for k2 in range(1, len(li) + 1):
+                    try:
+                        sub = [list(q) for q in p.split(k2)]
+                    except Exception as e:      # noqa: BLE001
+                        bad('shard-of-shard-refused', f'split({k})[{j}].split({k2}) raised {type(e).__name__}', k, j)
+                        continue
+                    ss = [len(q) for q in sub]
+                    if [x for q in sub for x in q] != li or max(ss) - min(ss) > 1 or len(sub) != k2:
+                        bad('shard-of-shard-wrong', f'split({k})[{j}].split({k2}) = {sub}', k, j)
+            try:
+                np_parts = [list(p) for p in ds.split(np.int64(k))]
+            except Exception as e:      # noqa: BLE001
+                bad('numpy-count-refused', f'split(np.int64({k})) raised {type(e).__name__}', k)
+            else:
+                if np_parts != lists:
+                    bad('numpy-count-differs', f'split(np.int64({k})) = {np_parts}', k)
+            for i in range(-k, 0):
+                st['transitions'] += 1
+                try:
+                    sh = list(ds.shard(k, i))
+                except Exception as e:      # noqa: BLE001
+                    bad('shard-refused', f'shard({k},{i}) raised {type(e).__name__}', k, i)
+                    continue
+                if sh != lists[i]:
+                    bad('shard-differs-from-split', f'shard({k},{i})={sh[:8]} split[{i}]={lists[i][:8]}', k, i)
         idxs = range(k) if shard_all else sorted({0, k // 2, k - 1})
         for i in idxs:
             st['transitions'] += 1
@@ -103,6 +153,7 @@ def run(tier):
         tasks.append((n, n <= n_shard, 'list'))
         if n <= (24 if tier == 'quick' else 80):
             tasks.append((n, True, 'dict'))
+            tasks.append((n, True, 'dict-pipeline'))
         if n <= (30 if tier == 'quick' else 90):
             for kind in ('shuffled', 'reversed', 'sorted', 'strided'):
                 tasks.append((n, n <= 20, kind))
